@@ -7,6 +7,36 @@ ROOT = os.path.dirname(os.path.dirname(os.path.abspath(__file__)))
 ALL = ["C%02d" % i for i in range(1, 21)]
 
 CLAIMED = {
+    "C07": dict(
+        category="other",
+        text="Sensor + specification: the harness measures the added noise y - f(x) of 10^6 samples per configuration (AWGN, Laplacian scale/power/SNR, nonlinear-with-"
+             "noise, add_noise_for_snr; real/complex; signal powers over six decades; SNR -20..40 dB; three shapes) and quantises it to centi-dB / ppm; NoiseLaw.tla "
+             "holds the law (power mode, SNR mode relative to the post-nonlinearity signal, scale mode per component, complex = sum of components) and the 7-sigma "
+             "bands, and TLC takes every accept/reject decision (Trace_Channels). Exact clauses - verbatim supplied noise, same-seed sqrt(4^j) scaling, utility "
+             "identities on a centi-dB grid, the library's SNR tools on channel outputs - need no statistics. MC_NoiseLaw checks the law module itself.",
+        design_ref="7/C07, 8",
+        note="A distributional law cannot be explored by an explicit-state model checker: binding is through measurement events (weakest form, hence level "
+             "'other'); per-run false-alarm < 1e-9 (7 sigma, fourth-moment bands).",
+        technique="TLA+ law module NoiseLaw + TLC verdicts on sensor measurement events (trace validation)"),
+    "C12": dict(
+        category="model_checking",
+        text="MC_BinaryChannels model-checks the transition relations (total, closed over alphabet + erasure symbol, extremes allowed, band arithmetic overflow-"
+             "free). For every (channel, probability incl. 0 and 1, alphabet, dtype, shape, erasure symbol) 10^6 symbols are pushed through the real channel and "
+             "aggregated into the full transition-count table; Trace_Channels decides support / alphabet / p=0 identity / p=1 extreme / immutability / shape "
+             "exactly on that table and the rate and lag-1 independence clauses from the counts against a 7-sigma binomial band in integer arithmetic.",
+        design_ref="7/C12",
+        note="Rates and independence are statistical (sensor counts, decision by TLC); every exact clause covers all 10^6 samples of each configuration.",
+        technique="TLA+ spec BinaryChannels + TLC: model checking of the transition relations, trace validation of transition tables"),
+    "C13": dict(
+        category="model_checking",
+        text="MC_FlatFading model-checks the block-index law i -> i div T for every (L, T) incl. non-divisors. Trace_Channels validates real fading channels: "
+             "with caller-supplied csi and noise on Gaussian integers TLC recomputes h.x+n in complex integer arithmetic; with unit input and zero noise the "
+             "logged gain ids must be constant exactly on the blocks of the partition law for every T in 1..L and distinct across blocks and batch items; shapes "
+             "1-D/(B,L)/(B,C,H,W) are preserved; E|h|^2, the Rician K split (10^6 blocks) and the noise stage relative to the faded signal are sensor "
+             "measurements judged against 7-sigma bands.",
+        design_ref="7/C13",
+        note="Unit mean-square gain is stated (and checked) for Rayleigh and Rician only; distinctness of independent draws assumes continuous distributions.",
+        technique="TLA+ spec MC_FlatFading/Trace_Channels + TLC: model checking of the partition law, trace validation (exact structure, sensor statistics)"),
     "C09": dict(
         category="model_checking",
         text="MC_Link model-checks the chain Encode -> Modulate -> Constrain -> Channel{Ideal|Flip(<=t per block)|Displace} -> Demodulate -> Decode over a "
